@@ -6,6 +6,7 @@ from datetime import UTC, datetime
 from time import time
 from typing import TYPE_CHECKING, Any
 
+from pynenc.exceptions import InvocationNotFoundError
 from pynenc.invocation.status import (
     InvocationStatus,
     InvocationStatusRecord,
@@ -422,7 +423,22 @@ class MemOrchestrator(BaseOrchestrator):
         """
         self.release_waiters(invocation_id)
 
-        invocation = self.app.state_backend.get_invocation(invocation_id)
+        try:
+            invocation = self.app.state_backend.get_invocation(invocation_id)
+        except InvocationNotFoundError:
+            # the state backend no longer has it (purged separately): un-index by scanning
+            for ids in self.args_index.values():
+                ids.discard(invocation_id)
+            for ids in self.task_id_to_inv_id.values():
+                ids.discard(invocation_id)
+            for ids in self.call_id_to_inv_id.values():
+                ids.discard(invocation_id)
+            if record := self.invocation_status_record.pop(invocation_id, None):
+                self.status_index[record.status].discard(invocation_id)
+            self.inv_id_to_call_id.pop(invocation_id, None)
+            self.invocation_args.pop(invocation_id, None)
+            self.invocation_retries.pop(invocation_id, None)
+            return
         for key, value in invocation.call.serialized_arguments.items():
             self.args_index[ArgPair(key, value)].discard(invocation_id)
         self.status_index[self.invocation_status_record[invocation_id].status].discard(
